@@ -45,7 +45,18 @@ theorem setCn_sv (n : N) (w : Who) (c : Cn) : (n.setCn w c).sv = n.sv := by
 theorem setCn_hist (n : N) (w : Who) (c : Cn) : (n.setCn w c).hist = n.hist := by
   unfold N.setCn; cases w <;> simp [setClient_hist]
 
-theorem SvStep.push {n m : N} (h : SvStep n m) (x : Msg) : SvStep n (m.push x) := h.same rfl rfl
+theorem wake_sv (n : N) (f : Fd) : (n.wake f).sv = n.sv := by unfold N.wake; split <;> rfl
+theorem wake_hist (n : N) (f : Fd) : (n.wake f).hist = n.hist := by unfold N.wake; split <;> rfl
+theorem wakeIfPending_sv (n : N) (f : Fd) : (n.wakeIfPending f).sv = n.sv := by
+  unfold N.wakeIfPending; split; exact wake_sv n f; rfl
+theorem wakeIfPending_hist (n : N) (f : Fd) : (n.wakeIfPending f).hist = n.hist := by
+  unfold N.wakeIfPending; split; exact wake_hist n f; rfl
+theorem SvStep.wake {n m : N} (h : SvStep n m) (f : Fd) : SvStep n (m.wake f) := h.same (wake_sv m f) (wake_hist m f)
+theorem SvStep.wakeIfPending {n m : N} (h : SvStep n m) (f : Fd) : SvStep n (m.wakeIfPending f) :=
+  h.same (wakeIfPending_sv m f) (wakeIfPending_hist m f)
+theorem SvStep.push {n m : N} (h : SvStep n m) (x : Msg) : SvStep n (m.push x) := by
+  unfold N.push
+  exact SvStep.wake (m := { m with qn := (mergeData m.qn x).getD (m.qn ++ [x]) }) (h.same rfl rfl) _
 theorem SvStep.pushLate {n m : N} (h : SvStep n m) (x : Msg) : SvStep n (m.pushLate x) := h.same rfl rfl
 theorem SvStep.setLink {n m : N} (h : SvStep n m) (l : Nat) (k : Link) : SvStep n (m.setLink l k) := h.same rfl rfl
 theorem SvStep.setClient {n m : N} (h : SvStep n m) (i : Nat) (c : Client) : SvStep n (m.setClient i c) :=
@@ -138,12 +149,14 @@ theorem SvStep.svSend {n m : N} (h : SvStep n m) (t : Nat) (d : List Byte) : SvS
   unfold Tbox.C06.Net.svSend
   split
   · exact h
-  · simp only
-    split
-    · split
-      · exact h.push _
-      · exact (h.push _).push _
+  · split
     · exact h
+    · simp only
+      split
+      · split
+        · exact h.push _
+        · exact (h.push _).push _
+      · exact h
 
 theorem SvStep.dropTok {n m : N} (h : SvStep n m) (t : Nat) :
     SvStep n { m with sv := { m.sv with table := m.sv.table.filter (·.1 ≠ t) } } :=
@@ -205,10 +218,12 @@ theorem SvStep.svShut {n m : N} (h : SvStep n m) (t : Nat) : SvStep n (svShut m 
   · exact h
   · simp only
     split
-    · split
-      · exact (h.setLink _ _).push _
-      · exact h.setLink _ _
     · exact h
+    · split
+      · split
+        · exact (h.setLink _ _).push _
+        · exact h.setLink _ _
+      · exact h
 
 theorem SvStep.clShut {n m : N} (h : SvStep n m) (i : Nat) : SvStep n (clShut m i).1 := by
   unfold Tbox.C06.Net.clShut; simp only
@@ -400,6 +415,15 @@ theorem SvI.closeDone {n : N} {t : Nat} (h : SvI (some t) n) (hno : ∀ e ∈ n.
 /-- functions that record no server callback and do not add to the table keep the invariant -/
 theorem SvI.of_step {x : Option Nat} {n m : N} (h : SvI x n) (hs : SvStep n m) : SvI x m := h.step hs
 
+theorem SvStep.knFailCb {n : N} (cfg : Cfg) (r : N × Bool) (h : SvStep n r.1) : SvStep n (knFailCb cfg r) := by
+  unfold Tbox.C06.Net.knFailCb
+  split
+  · simp only
+    split
+    · exact (h.evKnF).runCb cfg _ _ _
+    · exact ((h.evKnF).runCb cfg _ _ _).same rfl rfl
+  · exact h
+
 theorem handle_svStep_client (cfg : Cfg) (n : N) (m : Msg)
     (hm : match m with | .writable _ | .toC _ _ | .sentC _ | .eofC _ => True | _ => False) :
     SvStep n (handle cfg n m) := by
@@ -408,22 +432,34 @@ theorem handle_svStep_client (cfg : Cfg) (n : N) (m : Msg)
       simp only [handle]
       split
       · rename_i l _ _
-        cases w with
-        | cl i =>
-            simp only
-            exact SvStep.runScript (SvStep.evCl (SvStep.setClient (SvStep.withAlive (SvStep.setCn (SvStep.refl n) _ _) _) _ _) _ _ _) cfg _ _
-        | kn =>
-            simp only
-            exact SvStep.runScript (SvStep.free (SvStep.closeC (SvStep.evKnC (SvStep.withAlive (SvStep.setCn (SvStep.refl n) _ _) _)) _) _ _) cfg _ _
-        | raw =>
-            simp only
-            exact SvStep.runScript (SvStep.free (SvStep.closeC (SvStep.evKnC (SvStep.withAlive (SvStep.setCn (SvStep.refl n) _ _) _)) _) _ _) cfg _ _
+        split
+        · -- the connect fails late
+          have h0 : SvStep n (({ n with lateFail := n.lateFail - 1 } : N).closeCNow l) :=
+            SvStep.closeCNow (n := n) (m := { n with lateFail := n.lateFail - 1 }) (SvStep.of_eq rfl rfl rfl) l
+          have h1 := h0.cnFail cfg w
+          cases w with
+          | cl i => exact h1
+          | kn => exact SvStep.knFailCb cfg _ h1
+          | raw => exact h1
+        · have h0 : SvStep n (({ (n.setCn w { n.cn w with st := .inited, pend := none }) with
+              alive := (n.setCn w { n.cn w with st := .inited, pend := none }).alive ++ [(l, false)] } : N).wakeIfPending (.c l)) :=
+            SvStep.wakeIfPending (SvStep.withAlive (SvStep.setCn (SvStep.refl n) _ _) _) _
+          cases w with
+          | cl i =>
+              simp only
+              exact SvStep.runCb (SvStep.evCl (SvStep.setClient h0 _ _) _ _ _) cfg _ _ _
+          | kn =>
+              simp only
+              exact SvStep.runCb (SvStep.free (SvStep.closeC (SvStep.evKnC h0) _) _ _) cfg _ _ _
+          | raw =>
+              simp only
+              exact SvStep.runCb (SvStep.free (SvStep.closeC (SvStep.evKnC h0) _) _ _) cfg _ _ _
       · exact SvStep.refl n
   | toC l d =>
       simp only [handle]
       split
       · split
-        · exact SvStep.runScript (SvStep.evCl (SvStep.refl n) _ _ _) cfg _ _
+        · exact SvStep.runCb (SvStep.evCl (SvStep.refl n) _ _ _) cfg _ _ _
         · exact SvStep.refl n
       · split
         · exact SvStep.of_eq rfl rfl rfl
@@ -433,7 +469,7 @@ theorem handle_svStep_client (cfg : Cfg) (n : N) (m : Msg)
       simp only [handle]
       split
       · split
-        · exact SvStep.runScript (SvStep.evCl (SvStep.refl n) _ _ _) cfg _ _
+        · exact SvStep.runCb (SvStep.evCl (SvStep.refl n) _ _ _) cfg _ _ _
         · exact SvStep.refl n
       · exact SvStep.refl n
   | eofC l =>
@@ -441,7 +477,7 @@ theorem handle_svStep_client (cfg : Cfg) (n : N) (m : Msg)
       split
       · split
         · rename_i i _ hc
-          refine SvStep.runScript (SvStep.evCl ?_ _ _ _) cfg _ _
+          refine SvStep.runCb (SvStep.evCl ?_ _ _ _) cfg _ _ _
           have h1 : SvStep n (((n.closeC l).free (l, false) true).setClient i
               { ((n.closeC l).free (l, false) true).client i with st := .inited, link := none }) :=
             (((SvStep.refl n).closeC l).free _ _).setClient _ _
@@ -454,7 +490,6 @@ theorem handle_svStep_client (cfg : Cfg) (n : N) (m : Msg)
         · exact SvStep.of_eq rfl rfl rfl
       · exact SvStep.refl n
   | _ => exact absurd hm (by simp)
-
 
 theorem tok_unique (tbl : List (Nat × Nat)) (h : (tbl.map (·.1)).Nodup) {a b : Nat × Nat}
     (ha : a ∈ tbl) (hb : b ∈ tbl) (hab : a.1 = b.1) : a = b := by
@@ -490,8 +525,10 @@ theorem closeS_sv (n : N) (l : Nat) : (n.closeS l).sv = n.sv := by
 theorem SvI.withBusy {x : Option Nat} {n : N} (h : SvI x n) (b : Option (Nat × Bool)) : SvI x { n with busy := b } :=
   ⟨h.lt, h.nodup, h.fresh, h.live, h.ok⟩
 
-@[simp] theorem push_sv (n : N) (x : Msg) : (n.push x).sv = n.sv := rfl
-@[simp] theorem push_hist (n : N) (x : Msg) : (n.push x).hist = n.hist := rfl
+@[simp] theorem push_sv (n : N) (x : Msg) : (n.push x).sv = n.sv := by unfold N.push; rw [wake_sv]
+@[simp] theorem push_hist (n : N) (x : Msg) : (n.push x).hist = n.hist := by unfold N.push; rw [wake_hist]
+@[simp] theorem wip_sv (n : N) (f : Fd) : (n.wakeIfPending f).sv = n.sv := wakeIfPending_sv n f
+@[simp] theorem wip_hist (n : N) (f : Fd) : (n.wakeIfPending f).hist = n.hist := wakeIfPending_hist n f
 @[simp] theorem setLink_sv (n : N) (l : Nat) (k : Link) : (n.setLink l k).sv = n.sv := rfl
 @[simp] theorem setLink_hist (n : N) (l : Nat) (k : Link) : (n.setLink l k).hist = n.hist := rfl
 @[simp] theorem ev_sv (n : N) (e : Ev) : (n.ev e).sv = n.sv := rfl
@@ -559,7 +596,9 @@ theorem handle_svI (cfg : Cfg) (n : N) (m : Msg) (h : SvI none n) : SvI none (ha
   | accept =>
       simp only [handle]
       split
-      · exact (svAccept_svI n _ _ h).step ((SvStep.refl _).runScript cfg _ _)
+      · split
+        · exact h.step ((SvStep.of_eq rfl rfl rfl : SvStep n ({ n with acceptFail := n.acceptFail - 1 } : N)).push _)
+        · exact (svAccept_svI n _ _ h).step ((SvStep.refl _).runCb cfg _ _ _)
       · exact h
   | toS l d =>
       simp only [handle]
@@ -569,14 +608,14 @@ theorem handle_svI (cfg : Cfg) (n : N) (m : Msg) (h : SvI none n) : SvI none (ha
         · exact h
       · split
         · rename_i t _ hl
-          exact (h.emitLive (svLookup_mem hl) (.recv d) rfl).step ((SvStep.refl _).runScript cfg _ _)
+          exact (h.emitLive (svLookup_mem hl) (.recv d) rfl).step ((SvStep.refl _).runCb cfg _ _ _)
         · exact h
   | sentS l =>
       simp only [handle]
       split
       · split
         · rename_i t _ hl
-          exact (h.emitLive (svLookup_mem hl) .sendComplete rfl).step ((SvStep.refl _).runScript cfg _ _)
+          exact (h.emitLive (svLookup_mem hl) .sendComplete rfl).step ((SvStep.refl _).runCb cfg _ _ _)
         · exact h
       · exact h
   | eofS l =>
@@ -589,8 +628,8 @@ theorem handle_svI (cfg : Cfg) (n : N) (m : Msg) (h : SvI none n) : SvI none (ha
           have h1 : SvI (some t) (({ n with busy := some (l, true) } : N).ev (.sv t .disconnected)) :=
             SvI.emitClose (n := { n with busy := some (l, true) }) (h.withBusy _) hm
           have hs : SvStep (({ n with busy := some (l, true) } : N).ev (.sv t .disconnected))
-              (runScript cfg (.sv t) (({ n with busy := some (l, true) } : N).ev (.sv t .disconnected)) n.sv.sDisc) :=
-            (SvStep.refl _).runScript cfg _ _
+              (runCb cfg (.sv t) 1 (({ n with busy := some (l, true) } : N).ev (.sv t .disconnected)) n.sv.sDisc) :=
+            (SvStep.refl _).runCb cfg _ _ _
           have h2 := (h1.step hs).withBusy none
           have hsub := hs.table
           split
@@ -618,15 +657,6 @@ theorem SvStep.withSv {n m : N} (h : SvStep n m) (sv' : Server) (hi : sv'.issued
     (ht : sv'.table = m.sv.table) : SvStep n { m with sv := sv' } :=
   ⟨by simp [hi, h.issued], by simp [ht, h.table], h.trace⟩
 
-theorem SvStep.knFailCb {n : N} (cfg : Cfg) (r : N × Bool) (h : SvStep n r.1) : SvStep n (knFailCb cfg r) := by
-  unfold Tbox.C06.Net.knFailCb
-  split
-  · simp only
-    split
-    · exact (h.evKnF).runScript cfg _ _
-    · exact ((h.evKnF).runScript cfg _ _).same rfl rfl
-  · exact h
-
 theorem SvStep.fireTimer {n m : N} (h : SvStep n m) (cfg : Cfg) (w : Who) : SvStep n (fireTimer cfg m w) := by
   unfold Tbox.C06.Net.fireTimer; simp only
   split
@@ -638,7 +668,7 @@ theorem SvStep.fireTimer {n m : N} (h : SvStep n m) (cfg : Cfg) (w : Who) : SvSt
 
 theorem step_svStep (cfg : Cfg) (n : N) (op : Op) : SvStep n (step cfg n op).1 := by
   cases op with
-  | svInit => simp only [step]; split; exact SvStep.refl n; exact SvStep.of_eq rfl rfl rfl
+  | svInit => simp only [step]; split; exact SvStep.refl n; split <;> exact SvStep.of_eq rfl rfl rfl
   | svStart =>
       simp only [step]; split; exact SvStep.refl n
       have h1 : SvStep n (({ n with sv := { n.sv with st := .running } } : N).ev .svStart) :=
@@ -646,27 +676,21 @@ theorem step_svStep (cfg : Cfg) (n : N) (op : Op) : SvStep n (step cfg n op).1 :
           (fun _ _ hh => by cases hh)
       split; exact h1.push _; exact h1
   | svStop => exact (SvStep.refl n).svStop cfg
-  | svCleanup =>
-      simp only [step]; split; exact SvStep.refl n
-      have key : ∀ (l : List Nat) (k : N), SvStep n k → SvStep n (l.foldl (fun n l => n.closeSNow l) k) := by
-        intro l
-        induction l with
-        | nil => intro k hk; exact hk
-        | cons e l ih => intro k hk; exact ih _ (hk.closeSNow _)
-      have h1 := key (svStop cfg n).backlog _ ((SvStep.refl n).svStop cfg)
-      exact h1.trans (SvStep.of_eq rfl rfl rfl)
+  | svCleanup => exact (SvStep.refl n).svCleanup cfg
   | svSend t d => exact (SvStep.refl n).svSend t d
   | svDisc t => exact (SvStep.refl n).svDisconnect t
   | svValid t => exact SvStep.refl n
+  | svShut t => exact (SvStep.refl n).svShut t
   | svScript w s =>
       simp only [step]
       refine SvStep.of_eq ?_ ?_ rfl <;> simp only <;> split <;> rfl
   | clInit i => simp only [step]; split; exact SvStep.refl n; exact (SvStep.refl n).setClient _ _
   | clStart i => exact (SvStep.refl n).clStart cfg i
   | clStop i => exact (SvStep.refl n).clStop i
-  | clCleanup i => simp only [step]; split; exact SvStep.refl n; exact (((SvStep.refl n).clStop i).cnStop _).setClient _ _
+  | clCleanup i => exact (SvStep.refl n).clCleanup i
   | clRec i b => exact (SvStep.refl n).setClient _ _
   | clSend i d => exact (SvStep.refl n).clSend i d
+  | clShut i => exact (SvStep.refl n).clShut i
   | clScript i w s => exact (SvStep.refl n).setClient _ _
   | knInit tries => exact SvStep.of_eq rfl rfl rfl
   | knStart =>
@@ -674,9 +698,13 @@ theorem step_svStep (cfg : Cfg) (n : N) (op : Op) : SvStep n (step cfg n op).1 :
       have h0 : SvStep n ({ n with kn := { n.kn with fails := 0 } } : N) := SvStep.of_eq rfl rfl rfl
       exact SvStep.knFailCb cfg _ ((h0.ev .knStart (fun _ _ hh => by cases hh)).cnEnter cfg _)
   | knStop => exact ((SvStep.refl n).cnStop _).ev .knStop (fun _ _ hh => by cases hh)
-  | knCleanup => simp only [step]; split; exact SvStep.refl n; exact ((SvStep.refl n).cnStop _).trans (SvStep.of_eq rfl rfl rfl)
+  | knCleanup => exact (SvStep.refl n).knCleanup
   | knScript w s => simp only [step]; split <;> exact SvStep.of_eq rfl rfl rfl
-  | rawConn => simp only [step]; split; exact SvStep.of_eq rfl rfl rfl; exact SvStep.refl n
+  | rawConn =>
+      simp only [step]; split
+      · refine SvStep.push (n := n) (m := { n with links := n.links ++ [({ who := .raw } : Link)], backlog := n.backlog ++ [n.links.length], rawLink := some n.links.length, rawEof := false, rawHeld := [], rawEofHeld := false }) ?_ _
+        exact SvStep.of_eq rfl rfl rfl
+      · exact SvStep.refl n
   | rawSend d =>
       simp only [step]; split
       · split; exact (SvStep.refl n).push _; exact SvStep.refl n
@@ -692,6 +720,10 @@ theorem step_svStep (cfg : Cfg) (n : N) (op : Op) : SvStep n (step cfg n op).1 :
         | nil => intro k hk; exact hk
         | cons e l ih => intro k hk; exact ih _ (hk.fireTimer cfg _)
       exact key _ _ (SvStep.of_eq rfl rfl rfl)
+  | budget k => exact SvStep.of_eq rfl rfl rfl
+  | fault kind k =>
+      simp only [step]
+      split <;> exact SvStep.of_eq rfl rfl rfl
 
 theorem drain_svI (cfg : Cfg) (fuel : Nat) (n : N) (h : SvI none n) : SvI none (drain cfg fuel n) := by
   induction fuel generalizing n with
@@ -700,7 +732,7 @@ theorem drain_svI (cfg : Cfg) (fuel : Nat) (n : N) (h : SvI none n) : SvI none (
       unfold drain
       split
       · rename_i m rest _
-        exact ih _ (handle_svI cfg _ m (h.step (SvStep.of_eq rfl rfl rfl)))
+        exact ih _ (handle_svI cfg _ _ (h.step (SvStep.of_eq rfl rfl rfl)))
       · split
         · exact h
         · exact ih _ (h.step (SvStep.of_eq rfl rfl rfl))
@@ -708,7 +740,8 @@ theorem drain_svI (cfg : Cfg) (fuel : Nat) (n : N) (h : SvI none n) : SvI none (
 theorem stepQ_svI (cfg : Cfg) (n : N) (op : Op) (h : SvI none n) : SvI none (stepQ cfg n op) := by
   unfold stepQ
   split
-  · exact drain_svI cfg _ _ (h.step ((step_svStep cfg n op).trans (SvStep.of_eq rfl rfl rfl)))
+  · have h0 : SvI none ({ n with lastFds := [] } : N) := h.step (SvStep.of_eq rfl rfl rfl)
+    exact drain_svI cfg _ _ (h0.step ((step_svStep cfg _ op).trans (SvStep.of_eq rfl rfl rfl)))
   · exact h
 
 theorem run_svI (cfg : Cfg) (ops : List Op) (n : N) (h : SvI none n) : SvI none (run cfg n ops) := by
